@@ -4,6 +4,7 @@ import (
 	"fmt"
 	"go/token"
 	"go/types"
+	"sort"
 	"strings"
 
 	"golang.org/x/tools/go/ssa"
@@ -110,6 +111,9 @@ func (g *Gen) callInstr(v ssa.Value, ins ssa.CallInstruction, st *State, r strin
 		return
 	}
 	ci := g.resolveCall(cc)
+	if ci.key == "sort.Slice" && g.sortSlice(cc, st, r) {
+		return
+	}
 	if cc.IsInvoke() {
 		g.safety("nil", r, "(not (= "+g.val(cc.Value).T+" nilif))", "method call on a nil interface value: "+cc.Method.Name(), ins.Pos())
 	}
@@ -320,6 +324,9 @@ func (g *Gen) applyCall(ci *callInfo, st *State, r string, pos token.Pos, argOve
 			continue
 		}
 		t := g.mustClause(post, en.E, fmt.Sprintf("call %s ensures#%d", ci.key, i))
+		if en.Unproved {
+			g.stats.TrustedUsed["UNPROVED clause of "+shortKey(ci.key)+": "+en.Src] = true
+		}
 		g.guardAssume(r, t)
 	}
 	return res
@@ -491,7 +498,65 @@ func (g *Gen) appendBuiltin(v ssa.Value, cc *ssa.CallCommon, st *State, r string
 		g.assume("(validbytes " + g.heap(st, "bytes") + " " + rv.T + ")")
 		return
 	}
-	unsup("append on non-byte slices")
+	// General element type.  Lengths and identity of the result are exact; element cells are
+	// characterised pointwise: cells of the result below len(s) keep the values of s, cells from
+	// len(s) on hold the appended values, and no cell outside the result's array (when it is a
+	// reallocation) or outside the appended range (in place) changes.
+	el := cc.Args[0].Type().Underlying().(*types.Slice).Elem()
+	t := g.val(cc.Args[1])
+	newLen := "(+ (s_len " + s.T + ") (s_len " + t.T + "))"
+	fits := g.fresh("fits")
+	g.define(fits, "Bool", "(<= "+newLen+" (s_cap "+s.T+"))")
+	arr := "(mkloc " + st.A + " pnil)"
+	ncap := g.freshConst("ncap", "Int")
+	g.assume("(and (>= " + ncap + " " + newLen + ") (<= " + ncap + " 9223372036854775807))")
+	// the result is a declared constant (not a macro) so that it can occur in quantifier patterns
+	res := g.freshVal(v, st, r)
+	g.assume("(= " + res.T + " (ite " + fits + " (mkslice (s_arr " + s.T + ") (s_off " + s.T + ") " + newLen + " (s_cap " + s.T + ")) (mkslice " + arr + " 0 " + newLen + " " + ncap + ")))")
+	an := g.fresh("A")
+	g.define(an, "Int", "(ite "+fits+" "+st.A+" (+ "+st.A+" 1))")
+	oldA := st.A
+	st.A = an
+	_ = oldA
+	lenS := "(s_len " + s.T + ")"
+	g.instShifts = append(g.instShifts, lenS)
+	// group the scalar cells of an element by heap kind (one new heap version per kind)
+	type cellInfo struct {
+		path func(string) string
+		proj string
+	}
+	byKind := map[string][]cellInfo{}
+	var kindOrder []string
+	g.flatCellsT(el, func(path func(base string) string, k string, ct types.Type) {
+		if _, ok := byKind[k]; !ok {
+			kindOrder = append(kindOrder, k)
+		}
+		byKind[k] = append(byKind[k], cellInfo{path, elemPathOf(path)})
+	})
+	for _, k := range kindOrder {
+		hold := g.heap(st, k)
+		hn := g.fresh("Hap_" + k)
+		g.declare(hn, g.u.heapSort(k))
+		st.H[k] = hn
+		outside := "(and (not (= (l_obj l) (l_obj (s_arr " + s.T + ")))) (not (= (l_obj l) (l_obj " + arr + "))))"
+		g.assume("(forall ((l Loc)) (! (=> " + outside + " (= (select " + hn + " l) (select " + hold + " l))) :pattern ((select " + hn + " l))))")
+		g.frames = append(g.frames, havocFrame{kind: k, hn: hn, hpre: hold, conds: outside})
+		projs := map[string]bool{}
+		for _, c := range byKind[k] {
+			cell := func(sl, idx string) string { return c.path("(elm (s_arr " + sl + ") (+ (s_off " + sl + ") " + idx + "))") }
+			g.assume("(forall ((j Int)) (! (=> (and (<= 0 j) (< j " + lenS + ")) (= (select " + hn + " " + cell(res.T, "j") + ") (select " + hold + " " + cell(s.T, "j") + "))) :pattern ((select " + hn + " " + cell(res.T, "j") + "))))")
+			g.assume("(forall ((j Int)) (! (=> (and (<= 0 j) (< j (s_len " + t.T + "))) (= (select " + hn + " " + cell(res.T, "(+ "+lenS+" j)") + ") (select " + hold + " " + cell(t.T, "j") + "))) :pattern ((select " + hold + " " + cell(t.T, "j") + "))))")
+			projs[c.proj] = true
+		}
+		// in place: cells of the array of s outside the appended index range are unchanged
+		var inRange []string
+		for pr := range projs {
+			inRange = append(inRange, "(and ((_ is pelm) ("+pr+" (l_path l))) (<= (+ (s_off "+s.T+") "+lenS+") (p_i ("+pr+" (l_path l)))) (< (p_i ("+pr+" (l_path l))) (+ (s_off "+s.T+") "+newLen+")))")
+		}
+		sort.Strings(inRange)
+		g.assume("(=> " + fits + " (forall ((l Loc)) (! (=> (and (= (l_obj l) (l_obj (s_arr " + s.T + "))) (not " + orTerms(inRange) + ")) (= (select " + hn + " l) (select " + hold + " l))) :pattern ((select " + hn + " l)))))")
+	}
+	g.assume("(validslice " + res.T + ")")
 }
 
 // flatCellsT enumerates the scalar cells of a type; path maps a base location to the cell location.
@@ -641,4 +706,61 @@ func (g *Gen) inlineCall(ci *callInfo, actuals []Val, st *State, r string) Val {
 		return tup[0]
 	}
 	return Val{Tuple: tup}
+}
+
+// elemPathOf returns the name of a path projection that strips the field selectors a cell path
+// adds on top of its element location (identity for scalar elements).
+func elemPathOf(path func(string) string) string {
+	// count the nesting by applying path to a marker
+	p := path("@")
+	n := strings.Count(p, "(fld ")
+	if n > 3 {
+		unsup("append of deeply nested struct elements")
+	}
+	if n == 0 {
+		return "pathid"
+	}
+	return fmt.Sprintf("pbase%d", n)
+}
+
+// sortSlice models sort.Slice(x, less) on a slice value boxed at the call site: afterwards the
+// element cells are a permutation of the old ones (perm is an uninterpreted index map into the
+// old slice); nothing else changes. The ordering established by less is not modelled.
+func (g *Gen) sortSlice(cc *ssa.CallCommon, st *State, r string) bool {
+	mi, ok := cc.Args[0].(*ssa.MakeInterface)
+	if !ok {
+		return false
+	}
+	slt, ok := mi.X.Type().Underlying().(*types.Slice)
+	if !ok || isByteLike(slt.Elem()) {
+		return false
+	}
+	sv := g.val(mi.X).T
+	g.stats.TrustedUsed["sort.Slice (permutation of the elements; order not modelled)"] = true
+	perm := g.fresh("perm")
+	g.decls = append(g.decls, "(declare-fun "+perm+" (Int) Int)")
+	g.instPerms = append(g.instPerms, perm)
+	g.assume("(forall ((j Int)) (! (=> (and (<= 0 j) (< j (s_len " + sv + "))) (and (<= 0 (" + perm + " j)) (< (" + perm + " j) (s_len " + sv + ")))) :pattern ((" + perm + " j))))")
+	byKind := map[string][]func(string) string{}
+	var order []string
+	g.flatCellsT(slt.Elem(), func(path func(base string) string, k string, ct types.Type) {
+		if _, ok := byKind[k]; !ok {
+			order = append(order, k)
+		}
+		byKind[k] = append(byKind[k], path)
+	})
+	for _, k := range order {
+		hold := g.heap(st, k)
+		hn := g.fresh("Hsort_" + k)
+		g.declare(hn, g.u.heapSort(k))
+		st.H[k] = hn
+		outside := "(not (= (l_obj l) (l_obj (s_arr " + sv + "))))"
+		g.assume("(forall ((l Loc)) (! (=> " + outside + " (= (select " + hn + " l) (select " + hold + " l))) :pattern ((select " + hn + " l))))")
+		g.frames = append(g.frames, havocFrame{kind: k, hn: hn, hpre: hold, conds: outside})
+		for _, path := range byKind[k] {
+			cell := func(idx string) string { return path("(elm (s_arr " + sv + ") (+ (s_off " + sv + ") " + idx + "))") }
+			g.assume("(forall ((j Int)) (! (=> (and (<= 0 j) (< j (s_len " + sv + "))) (= (select " + hn + " " + cell("j") + ") (select " + hold + " " + cell("("+perm+" j)") + "))) :pattern ((select " + hn + " " + cell("j") + "))))")
+		}
+	}
+	return true
 }
